@@ -705,7 +705,7 @@ fn resolve_symbol_name(address: u16) -> Option<&'static str> {
     with_symbol_table(|sym| {
         for (label, symbol_address) in sym {
             // +1 to account for PC being incremented before instruction is executed
-            if *symbol_address == address + 1 {
+            if Some(*symbol_address) == address.checked_add(1) {
                 // SAFETY: Symbol table is statically allocated, and all keys will last until the
                 // end of the program lifetime
                 let label_static = unsafe { &*(label.as_str() as *const str) };
